@@ -1345,11 +1345,13 @@ def check_c09(tier):
     shutil.copytree(os.path.join(ROOT, "spec", "merge"), run)
     tool_errors = []
     # families: two files with every split and sibling order; three files (an element that already has its own file set is merged again)
-    fams = [(2, "TRUE", "FALSE"), (3, "FALSE", "TRUE")] if tier == "quick" else [(2, "TRUE", "FALSE"), (3, "TRUE", "TRUE"), (3, "FALSE", "FALSE")]
+    # (files, sibling reordering, small, number of the file with the older version)
+    fams = [(2, "TRUE", "FALSE", 0), (3, "FALSE", "TRUE", 0), (2, "FALSE", "TRUE", 1), (3, "FALSE", "TRUE", 2)] if tier == "quick" else \
+           [(2, "TRUE", "FALSE", 0), (3, "TRUE", "TRUE", 0), (3, "FALSE", "FALSE", 0), (2, "TRUE", "FALSE", 1), (3, "TRUE", "TRUE", 1), (3, "TRUE", "TRUE", 3)]
     nfiles = 3
     def wcfg(mode, fam):
         name = "merge_%s.cfg" % mode
-        open(os.path.join(run, name), "w").write("SPECIFICATION Spec\nCHECK_DEADLOCK FALSE\nCONSTANTS\n  Mode = \"%s\"\n  NFiles = %d\n  Reorder = %s\n  Small = %s\n" % ((mode,) + fam))
+        open(os.path.join(run, name), "w").write("SPECIFICATION Spec\nCHECK_DEADLOCK FALSE\nCONSTANTS\n  Mode = \"%s\"\n  NFiles = %d\n  Reorder = %s\n  Small = %s\n  OldFile = %d\n" % ((mode,) + fam))
         return name
     wcfg("judge", fams[0])
     inp = os.path.join(run, "in.ndjson")
@@ -1396,9 +1398,42 @@ def check_c09(tier):
         if j["rc"] != 0:
             tool_errors.append("Merge judge chunk %d rc=%s %s" % (k, j["rc"], j["errors"][:2]))
         verdicts += [json.loads(decode_tagged(l)[1][0]) for l in j["tagged"] if l.startswith('<<"V"')]
+    # conflicting files: table facts -> cases and expectations (TLC) -> two loads on the real library -> judgement (TLC)
+    import json2tla
+    nfacts = 60 if tier == "quick" else 600
+    fr = sh([VH, "splitfacts", "--count", str(nfacts)], timeout=600)
+    fj = json.loads(fr.stdout.strip().splitlines()[-1])
+    open(os.path.join(run, "SplitData.tla"), "w").write(json2tla.module("SplitData", "SplitDataDef", fj["facts"]))
+    for mode in ("gen", "judge"):
+        open(os.path.join(run, "split_%s.cfg" % mode), "w").write("SPECIFICATION Spec\nCHECK_DEADLOCK FALSE\nCONSTANTS\n  Mode = \"%s\"\n" % mode)
+    sinp = os.path.join(run, "split_in.ndjson")
+    sg = tlc_lines(run, "SplitConflict.tla", "split_gen.cfg", "I", sinp, workers=4)
+    if sg["rc"] != 0 or sg["n"] == 0:
+        tool_errors.append("SplitConflict gen rc=%s n=%s %s" % (sg["rc"], sg["n"], sg["errors"][:2]))
+    sout = os.path.join(run, "split_res.ndjson")
+    sr = json.loads(sh([VH, "splitrun", "--in", sinp, "--out", sout], timeout=3600).stdout.strip().splitlines()[-1])
+    sj = run_tlc(run, "SplitConflict.tla", "split_judge.cfg", 1, 3600, env={"RESULTS": sout}, tag="_sjudge", heap="6g")
+    if sj["rc"] != 0:
+        tool_errors.append("SplitConflict judge rc=%s %s" % (sj["rc"], sj["errors"][:2]))
+    sverdicts = [json.loads(decode_tagged(l)[1][0]) for l in sj["tagged"] if l.startswith('<<"V"')]
+    if sr["records"] < 20:
+        tool_errors.append("vacuous: only %d conflict records" % sr["records"])
     kf = [f for f in known_findings().get("findings", []) if f.get("engine") == "E5"]
     viol = 0
     known = {}
+    for v in sverdicts:
+        hit = [f for f in kf if v["pred"] in f.get("preds", []) and f.get("ty") in (None, v["r"]["ty"])]
+        if hit:
+            known[hit[0]["id"]] = hit[0]
+            continue
+        viol += 1
+        if viol <= 20:
+            dd = os.path.join(WORK, "replays")
+            os.makedirs(dd, exist_ok=True)
+            path = os.path.join(dd, "C09-split-%d.json" % viol)
+            json.dump(dict(v["r"], property="C09", engine="E5", predicate=v["pred"]), open(path, "w"))
+            print("VIOLATION property=C09 replay=%s" % path)
+            log("   %s fails: two files of version bit %s with differently named %s children in one %s: expected %s, second load %s, children %s" % (v["pred"], v["r"]["ver"], v["r"]["child"], v["r"]["ty"], v["r"]["exp"], v["r"]["load2"], v["r"]["names"]))
     for v in verdicts:
         # the duplicate-element finding: the record itself has a duplicated path, or (order independence) some record of the same split has
         dupids = getattr(check_c09, "_dupids", None)
@@ -1428,7 +1463,9 @@ def check_c09(tier):
                 samples.append({"split": c["id"], "view_of_file_1": c["views"][0][-260:]})
     ev = {"property_id": "C09", "tier": tier, "seed": seed(), "level": "model_checking",
           "coverage": {"states": max(1, g["distinct"]), "transitions": max(1, g["generated"]), "traces_validated_against_impl": nrec, "samples": samples or ["none"],
-                       "files": nfiles, "splits_x_sibling_orders": g["n"], "families_files_reorder_small": [list(f) for f in fams], "known_findings_hit": sorted(known.keys()), "exhaustive": True,
+                       "files": nfiles, "splits_x_sibling_orders": g["n"], "families_files_reorder_small_oldfile": [list(f) for f in fams], "known_findings_hit": sorted(known.keys()), "exhaustive": True,
+                       "conflict_cases": {"types_with_version_dependent_split_mark": fj["version_dependent"], "never_splittable": fj["never"], "always_splittable": fj["always"],
+                                          "facts_used": len(fj["facts"]), "records": sr["records"], "unbuildable": sr["unbuildable"]},
                        "explanation": "TLC enumerates every split of the master model (2 packages, 4 elements, a nested package) over two and three files, with each file presenting its siblings in document or reversed order; the harness loads the views in every order; TLC judges Union, Attribution, FileContent and OrderIndependent on every merged model"},
           "assumptions": ["one master shape (spec/merge/Merge.tla); BSW containers keyed by DEFINITION-REF and files of different versions are not in the enumerated family", "canonical element lists from harness/src/merge.rs"],
           "wall_s": round(time.time() - t0, 2), "violations": viol}
